@@ -1,5 +1,5 @@
 //! C10 — static well-formedness rules are enforced and reported truthfully.
-//! Explores all syntactically valid files of at most m items over a 184-item alphabet built from small
+//! Explores all syntactically valid files of at most m items over a 204-item alphabet built from small
 //! name pools (every combination of simultaneous violations occurs); oracle: R-validate's violation *set*.
 
 use crate::common::*;
@@ -19,7 +19,7 @@ pub fn item_alphabet() -> Vec<String> {
         }
     }
     for x in ["A", "B", "T", "a", "Tok", "_a", "_9"] {
-        for fs in ["", "($T)", "(A)", "(B)", "(T)", "($A)", "($Z)", "(Z)", "{x: $T}", "{X: $T}", "{_: $T}", "(_: $A)", "{_x: $T}", "{_X: $T}", "{_: $Z}", "(_: Z)", "{x: Z}"] {
+        for fs in ["", "($T)", "(A)", "(B)", "(T)", "($A)", "($Z)", "(Z)", "{x: $T}", "{X: $T}", "{_: $T}", "(_: $A)", "{_x: $T}", "{_X: $T}", "{_: $Z}", "(_: Z)", "{x: Z}", "(Z Y)", "{x: $Z y: $Y}"] {
             items.push(format!("struct {x}{fs}"));
         }
     }
@@ -49,6 +49,10 @@ pub fn item_alphabet() -> Vec<String> {
             "V(_: Z)",
             "V{X: $T}",
             "V v",
+            // two instances of the same rule violated inside one enum ("first error wins" must not depend on anything but the text)
+            "V($T) W($T) X Y",
+            "V V W W",
+            "v w",
         ] {
             items.push(format!("enum {x} {{ {vs} }}"));
         }
